@@ -1,6 +1,6 @@
 SPECIFICATION GSpec
 CONSTANTS
-  Colourings = 8
+  Colourings = 4
   Deep = TRUE
 CONSTRAINT Emit
 CHECK_DEADLOCK FALSE
